@@ -295,6 +295,26 @@ class Effects:
         t = self.ty.type_of(f, e)
         return bool(t) and all(a[0].startswith("proto") for a in t)
 
+    def _is_list(self, f: FuncInfo, base: ast.expr) -> bool:
+        try:
+            ts = self.ty.type_of(f, base)
+        except Exception:
+            return False
+        return any(a[0] == "seq" or (a[0] == "ext" and str(a[1]).split(".")[-1].split("[")[0] in ("list", "List", "MutableSequence")) for a in ts)
+
+    def _may_be_slice(self, f: FuncInfo, idx: ast.expr) -> bool:
+        """The subscript index can be a slice object with a step: a literal extended slice, or a parameter that is not
+        annotated as an integer (e.g. the `i` of UserList.__setitem__)."""
+        if isinstance(idx, ast.Slice):
+            return idx.step is not None and not (isinstance(idx.step, ast.Constant) and idx.step.value in (None, 1))
+        if isinstance(idx, ast.Name) and idx.id in f.params and not isinstance(f.node, ast.Lambda):
+            a = f.node.args
+            for p_ in a.posonlyargs + a.args + a.kwonlyargs:
+                if p_.arg == idx.id:
+                    ann = norm(p_.annotation) if p_.annotation is not None else ""
+                    return ann == "" or "slice" in ann
+        return False
+
     def root_tag(self, f: FuncInfo, e: ast.expr) -> str | None:
         """'self' / 'p<i>' / '*' for non-fresh roots, None if the receiver is fresh."""
         while isinstance(e, (ast.Attribute, ast.Subscript)):
@@ -595,6 +615,10 @@ class Effects:
                 self._sum[f.key].qmods.add((tag, q))
                 if delete:
                     rej = Rej(f.key, f"key of `{cnorm(stmt, f.node)}` absent", "KeyError", stmt)
+                    evs.append(Event("C", stmt, f"{norm(stmt)} may raise", [rej], loop=loop))
+                elif self._may_be_slice(f, t.slice) and self._is_list(f, base):
+                    # builtin rejection: a list refuses `l[a:b:k] = seq` (k != 1) when the sizes differ
+                    rej = Rej(f.key, f"`{norm(t.slice)}` is an extended slice and the assigned sequence has another size", "ValueError", stmt)
                     evs.append(Event("C", stmt, f"{norm(stmt)} may raise", [rej], loop=loop))
                 evs.append(Event("M", stmt, f"{norm(t)} {'deleted' if delete else 'stored'}", loop=loop, tags=[tag], fields=[f"{fld}[]"], qfields=[q]))
 
